@@ -294,6 +294,11 @@ def run(rep: Report, prog: Program, tier: str) -> None:
         ("RtcpRtpfbPacket", pkt("RtcpRtpfbPacket", fmt=1, ssrc=1, media_ssrc=9, lost=[]), set()),
         ("RtcpPsfbPacket", pkt("RtcpPsfbPacket", fmt=pli, ssrc=1, media_ssrc=9, fci=b""), set()),
         ("RtcpSdesPacket", pkt("RtcpSdesPacket", chunks=[]), set()),
+        # application layer feedback (fmt 15) reports on its media SSRC like every other payload-specific feedback, REMB or not
+        ("RtcpPsfbPacket", pkt("RtcpPsfbPacket", fmt=app, ssrc=1, media_ssrc=2, fci=("BAD", [])), {"S2"}),
+        ("RtcpPsfbPacket", pkt("RtcpPsfbPacket", fmt=app, ssrc=1, media_ssrc=4, fci=("REMB", [5])), {"S4", "S5"}),
+        ("RtcpPsfbPacket", pkt("RtcpPsfbPacket", fmt=app, ssrc=1, media_ssrc=4, fci=("REMB", [])), {"S4"}),
+        ("RtcpRtpfbPacket", pkt("RtcpRtpfbPacket", fmt=15, ssrc=1, media_ssrc=6, lost=[]), {"S6"}),
     ]
     covered = {t[0] for t in table}
     missing = [u for u in union_names if u not in covered]
